@@ -482,8 +482,28 @@ class _Exec(object):
 
     def branch(self, test, st):
         """-> [(state, bool)] : the state extended with the condition literals, for each way the test can come out"""
-        e = self.sx(test, st)
         evs = self.record_calls(test, st)
+        # a test that is a call of a computing helper (`if _is_blank(x):`, `if not self._fits(n):`) is decided by the helper's paths
+        inner, flip = test, False
+        while isinstance(inner, ast.UnaryOp) and isinstance(inner.op, ast.Not):
+            inner, flip = inner.operand, not flip
+        if isinstance(inner, ast.Call) and self.resolver is not None and not getattr(self, '_in_helper_branch', False):
+            vf = self.value_facts(inner, st)
+            if vf is not None:
+                out = []
+                for conds, rv in vf:
+                    st2 = Path(st.conds + conds, st.events, dict(st.env), None)
+                    self._in_helper_branch = True
+                    try:
+                        sub = self.branch_expr(rv, test, st2, evs)
+                    finally:
+                        self._in_helper_branch = False
+                    for s3, pol in sub:
+                        out.append((s3, pol != flip))
+                return out
+        return self.branch_expr(self.sx(test, st), test, st, evs)
+
+    def branch_expr(self, e, test, st, evs):
         f = cond_formula(e)
         out = []
         for pol, form in ((True, f), (False, negate(f))):
